@@ -101,6 +101,13 @@ func (k *KnownSpec) matches(v *Violation, sc *Scenario) bool {
 				}
 			}
 		}
+		if sc.Adapter != nil {
+			for _, p := range sc.Adapter.Policies {
+				if p.Kind == kind {
+					used = true // adapter scenarios keep their policies in the adapter spec
+				}
+			}
+		}
 		if !used {
 			return false
 		}
